@@ -59,11 +59,20 @@ fn seed_replies(cfg: &Cfg) -> Vec<Reply> {
 
 fn fresh_world(cfg: &Cfg, apps: &Arc<Vec<Vec<L>>>, prefix: &[Event], outstanding: usize) -> explore::Run {
     let mut run = explore::replay(cfg, apps, &Nop, prefix);
-    for _ in 0..outstanding {
+    for _ in 0..outstanding.min(2) {
         explore::step(&mut run, &Event::Send { app: 0 }, None);
+    }
+    // `outstanding` >= 3 means: two requests, both already retransmitted once (unreliable transport)
+    if outstanding >= RETRANSMITTED && !cfg.reliable() {
+        if let Some(t) = run.w.awaiting().iter().map(|i| run.w.reqs[*i].pending_deadline()).min() {
+            explore::step(&mut run, &Event::TimerAt(t), None);
+        }
     }
     run
 }
+
+/// pseudo-count: two outstanding requests that have been retransmitted once before the bytes arrive
+const RETRANSMITTED: usize = 3;
 
 fn mutants_for(run: &explore::Run, reply: &Reply) -> Vec<(Vec<u8>, &'static str)> {
     let Some(i) = run.w.awaiting().last().copied() else { return vec![] };
@@ -88,11 +97,15 @@ pub fn run(ctx: &RunCtx, rep: &mut Report) {
             }
         }
     }
-    let work: Vec<(usize, usize)> = (0..states.len()).flat_map(|s| [1usize, 2].into_iter().map(move |o| (s, o))).collect();
+    let work: Vec<(usize, usize)> = (0..states.len()).flat_map(|s| [1usize, 2, RETRANSMITTED].into_iter().map(move |o| (s, o))).collect();
     let shared = Shared::new();
     let shared2 = Shared::new();
     work.par_iter().for_each(|(si, outstanding)| {
-        let (name, cfg, prefix) = &states[*si];
+        let (name, cfg0, prefix) = &states[*si];
+        // room for exactly two more requests than the prefix and the outstanding ones need
+        let mut cfg = cfg0.clone();
+        cfg.max_tx = (*outstanding).min(2) + 1;
+        let cfg = &cfg;
         let mut r = Report::new();
         for reply in seed_replies(cfg) {
             let mut run = fresh_world(cfg, &apps, prefix, *outstanding);
@@ -117,11 +130,21 @@ pub fn run(ctx: &RunCtx, rep: &mut Report) {
                     }
                     CallRes::RecvOk => {
                         r.add_extra("client_mutants_accepted", 1);
-                        // usable afterwards?
+                        // usable afterwards? (the client's table has room for two more requests than were outstanding:
+                        // a request must be accepted now, and again, whatever the accepted bytes were)
                         let t = run.w.timer();
-                        let s = run.w.send(0);
+                        // as many further requests as the limit leaves room for must be served
+                        let room = cfg.max_tx.saturating_sub(run.w.awaiting().len()).min(2);
+                        let s = if room >= 1 { run.w.send(0) } else { t.clone() };
+                        let s2 = if room >= 2 { run.w.send(0) } else { t.clone() };
                         if matches!(t.res, CallRes::Panic(_)) || matches!(s.res, CallRes::Panic(_)) {
                             r.violate(format!("client-unusable-after-accepted-mutant/{}", class), format!("{:?} {:?}", t.res, s.res), replay());
+                        } else if run.w.dead.is_none() && (matches!(s.res, CallRes::SendErr(super::world::ErrK::MaxOutstanding)) || matches!(s2.res, CallRes::SendErr(super::world::ErrK::MaxOutstanding))) {
+                            r.violate(
+                                format!("client-refuses-requests-after-accepted-bytes/{}", if *outstanding >= RETRANSMITTED { "requests-had-been-retransmitted" } else { "fresh-requests" }),
+                                format!("{:?} {:?} with {} requests awaiting and a limit of {}", s.res, s2.res, run.w.awaiting().len(), cfg.max_tx),
+                                replay(),
+                            );
                         }
                         // restore the credential state for the remaining mutants
                         run = fresh_world(cfg, &apps, prefix, *outstanding);
@@ -203,7 +226,7 @@ pub fn run(ctx: &RunCtx, rep: &mut Report) {
     rep.transitions = 0;
     rep.extra.insert(
         "client".into(),
-        json!({"credential_state_representatives": states.len(), "outstanding": [1, 2], "deliveries": n, "accepted": acc, "rejected": rej,
-               "what": "every single-fault mutant of every reply kind of the reference server (addressed to the newest outstanding id, MAC / FINGERPRINT computed for that id) delivered to a client restored to the representative state whenever a mutant was accepted; after acceptance and at the end of every seed: on_timeout, send_request and events must still work"}),
+        json!({"credential_state_representatives": states.len(), "outstanding": [1, 2, "2 retransmitted once"], "deliveries": n, "accepted": acc, "rejected": rej,
+               "what": "every single-fault mutant of every reply kind of the reference server (addressed to the newest outstanding id, MAC / FINGERPRINT computed for that id) delivered to a client restored to the representative state whenever a mutant was accepted; the client's limit is one above the number of outstanding requests: after acceptance a timer call and as many further requests as the limit leaves room for (by the harness's own count of unfinished requests) must be served (no panic, no refusal), and at the end of every seed on_timeout, send_request and events must still work"}),
     );
 }
